@@ -92,6 +92,55 @@ CLAIMED = {
         note="the ODE solution is an oracle: partial on integration accuracy (Tn 2e-4, kappa 3e-2). Known finding C03-K: kappa of "
              "near-Jouguet hybrids is off by several percent at default rtol (Simpson on coarse RK45 steps).",
         technique="Lean 4 proof over regenerated model + translator validation + independent-integrator monitor", ref="4/C03"),
+    "C14": dict(
+        text="Lean 4 theorems (Props.C14, 29 theorems): model of newFromDirectory/loadCollisions -- on success block (i,j) is exactly the dataset "
+             "of file (i,j) for every ordered pair, all files agree in size/basis, gridN <= size; the load fails (CollisionLoadError) IFF a "
+             "file is missing / oversized / unknown basis / disagrees with the first file; a failed load leaves the installed array in place. "
+             "Matrix theorems: basis change with the inverse-transpose convention preserves the operator's action on every distribution (the "
+             "code's collocation matrix is proved invertible); interpolated operator = E*C*P acts as evaluate-after-apply on every low-order "
+             "distribution, blockwise independent of other particles; the correct axis rearrangement (and that the old reshape was wrong). "
+             "Real HDF5 directories (1-3 particles, sizes, bases, fault patterns) are loaded and compared with the model; real basis change/"
+             "interpolation compared with E*C*T*P built from Model.Poly's matrices.",
+        note="present files are assumed well-formed HDF5; two defects fixed in /repo (cdd2d71 multi-particle interpolation, ece627b AssertionError).",
+        technique="Lean 4 proof over hand model + line-protocol correspondence with real HDF5 loads", ref="4/C14"),
+    "C18": dict(
+        text="Lean 4 theorems (Props.C18): executable model of InterpolatableFunction (table, modes, adaptive scheduling, extension, "
+             "derivative stencils, file round trip) with an invariant proved for EVERY operation history including raising operations "
+             "(>= 2 strictly increasing abscissae, counter below threshold, non-finite points dropped individually, state unchanged by a "
+             "failing construction); evaluate/derivative return one entry per input entry with exactly the provenance the per-side mode "
+             "prescribes; reread is the identity; scalar- and vector-valued alike. The model is run against the REAL class on random "
+             "histories (state after every op, provenance of every entry via an outside instrumentation), and the contract is searched on "
+             "the real class with cubic test functions (values, shapes, derivatives, round trip, adaptive histories).",
+        note="CubicSpline accuracy is an oracle (exact on cubics); dyadic abscissae make the Rat model bit-comparable. Four defects fixed in "
+             "/repo (6a2cab0, 904d8fb, 11851cf, 7229b95); known finding C18-M (table rebuilt in the middle of a call).",
+        technique="Lean 4 invariant proof over executable state-machine model + line-protocol correspondence", ref="4/C18"),
+    "C04": dict(
+        text="Lean 4 theorems (Props.C04, 24 theorems) about a hand model of the EOM formulas: plasmaVelocity is the unique subluminal root "
+             "of w v/(1-v^2) = s1 with the sign of s1; temperatureProfileEqLHS = T33 - s2 identically; a returned point reproduces both "
+             "conserved components including the out-of-equilibrium part; (T+,-v+) and (T-,-v-) solve the equations with the hydrodynamic "
+             "boundary constants (uses C02); deltaToTmunu = components 30/33 of the boosted plasma-frame tensor (full 4x4 boost); bracket "
+             "direction and success-flag logic. Model compared with the real EOM methods (Float, 1e-11); T30/T33 recomputed from every point "
+             "of real findPlasmaProfile runs on all branches; asymptotics checked.",
+        note="which root the heuristic bracket reaches is potential dependent (monitored); residual tolerance = the solver's rtol (errTol/10 in T). "
+             "The no-root branch keeps the success flag (observation, below tolerance on all sampled runs).",
+        technique="Lean 4 proof over hand model + Float correspondence + real-run recomputation", ref="4/C04"),
+    "C09": dict(
+        text="Lean 4 theorems (Props.C09): the coded field gradient is the exact z-derivative of the tanh profile; for every C^1 potential "
+             "-int dV/dphi.dphi/dz dz = V(phi_low)-V(phi_high) for all widths and offsets (single and n fields, integrability PROVED from "
+             "cosh^-2 decay); change of variables to the compact coordinate with the reported Jacobian (improper integral, instantiated on "
+             "the regenerated simple grid); T-independent field part. Real _intermediatePressureResults runs in a uniform plasma over wall "
+             "shapes inside the property's box and grid sizes from 40 up, requiring the error to be small and to fall spectrally with M.",
+        note="discretisation error itself is not a theorem (C16 gives exactness on the quadrature class): partial; Nelder-Mead is an oracle "
+             "whose result must not matter.",
+        technique="Lean 4 proof (analysis in Mathlib) + real-run convergence monitor", ref="4/C09"),
+    "C08": dict(
+        text="Lean 4 theorems (Props.C08, 13 theorems): tanh profile/gradient equivariant under translation, reflection and any re-indexing of "
+             "the fields; kinetic term, T33 residual and the grid envelope invariant under permutations; exact re-pinning law for the offsets "
+             "when another field comes first. Metamorphic end-to-end runs of the real solver on a coupled two-field model under reflection, "
+             "translation and permutation, plus action-covariance on equivalent configurations.",
+        note="iterative solvers are oracles (compared at 2*errTol). Known finding C08-P: swapping the field order changes the wall velocity "
+             "(0.6264 vs 0.6190) although every proved piece is covariant.",
+        technique="Lean 4 proof over hand model + metamorphic end-to-end monitor", ref="4/C08"),
 }
 
 NOT_YET = "check not built yet in this round (design in DESIGN.md section 4); listed here until its Lean module and harness are committed"
